@@ -46,8 +46,11 @@ type Outcome struct {
 	RawFlags  byte
 	RawOpcode byte
 	RawBody   []byte
-	Delay     time.Duration
-	Hold      chan struct{} // if non-nil the reply is sent only after the channel is closed
+	// for ErrMsg: header flags the answer carries besides its message: 0x02 a tracing id, 0x08 a warning list (v4+),
+	// 0x04 a custom payload (v4+) -- the error code is then not at the start of the body
+	MsgFlags byte
+	Delay    time.Duration
+	Hold     chan struct{} // if non-nil the reply is sent only after the channel is closed
 	// RawReply refinements: a version byte other than the connection's (0: default), another
 	// stream id than the request's, a declared length other than len(RawBody)
 	RawVersion byte
@@ -119,7 +122,7 @@ type Backend struct {
 	OddKeyspaces   map[string]bool          // USE of these is answered with a RESULT that is not set_keyspace
 	OptionsReplies []Outcome                // raw replies handed out, one each, to the next OPTIONS (heartbeats) of started connections
 	StartupDelay   time.Duration            // every STARTUP is answered after this delay (widens the window in which a session is being created)
-	PrepareErr     map[string][]Outcome // per prepared-id (hex) outcomes of PREPARE attempts
+	PrepareErr     map[string][]Outcome     // per prepared-id (hex) outcomes of PREPARE attempts
 	prepAttempts   map[string]int
 	nextConn       int
 	seq            int
@@ -965,7 +968,22 @@ func (c *Conn) apply(stream int16, out Outcome, token string) bool {
 		case OkVoid:
 			c.sendMsg(stream, &message.VoidResult{})
 		case ErrMsg:
-			c.sendMsg(stream, out.Msg)
+			if out.MsgFlags == 0 {
+				c.sendMsg(stream, out.Msg)
+			} else {
+				fl := out.MsgFlags
+				c.sendMsgMod(stream, out.Msg, func(f *frame.Frame) {
+					if fl&0x02 != 0 {
+						f.SetTracingId(schemaVersion)
+					}
+					if fl&0x08 != 0 && f.Header.Version >= primitive.ProtocolVersion4 {
+						f.SetWarnings([]string{"fb: a warning"})
+					}
+					if fl&0x04 != 0 && f.Header.Version >= primitive.ProtocolVersion4 {
+						f.SetCustomPayload(map[string][]byte{"k": {1, 2, 3}})
+					}
+				})
+			}
 		case Silence:
 		case DropConn, SilenceThenDropConn:
 			return false
